@@ -73,10 +73,7 @@ def check(ctx: Ctx):
     for fn in (e.forward, e.inverse):
         lp = e.level_loop(fn)
         it = lp.iter
-        ok = isinstance(it, ast.Call) and isinstance(it.func, ast.Name) and it.func.id == 'range' and \
-            1 <= len(it.args) <= 2 and isinstance(it.args[-1], ast.Attribute) and it.args[-1].attr == dens and \
-            isinstance(it.args[-1].value, ast.Name) and it.args[-1].value.id == fn.param_names[0] and \
-            (len(it.args) == 1 or (isinstance(it.args[0], ast.Constant) and it.args[0].value == 0)) and \
+        ok = e.loop_bound_attr(fn, lp) == dens and \
             not any(isinstance(x, (ast.Break,)) for b in lp.body for x in ast.walk(b)
                     if not isinstance(b, (ast.For, ast.While)))
         ctx.check(ok, 'R20.2', fn.short, fn.loc(lp), f'level loop is range(self.{dens})',
